@@ -231,6 +231,7 @@ class Vocab:
         self.qubits = [cirq.GridQubit(r, c) for r in range(3) for c in range(3)]
         self.t, self.u = sympy.Symbol('t'), sympy.Symbol('u')
         self.cliffords = list(cirq.SingleQubitCliffordGate.all_single_qubit_cliffords)
+        self.known = True      # whether inputs of the known findings may be generated
 
     def real(self, allow_symbolic=True):
         rng, t, u = self.rng, self.t, self.u
@@ -273,7 +274,7 @@ class Vocab:
         if k == 'reset':
             return cirq.ResetChannel()
         if k == 'depol':
-            return cirq.DepolarizingChannel(p=rng.choice([0.1, 0.25, 0.01, 0.0]))
+            return cirq.DepolarizingChannel(p=rng.choice([0.1, 0.25, 0.01] + ([0.0] if self.known else [])))
         return cg.InternalGate(rng.choice(['G1', 'G2']), rng.choice(['mod.a', '']), 1,
                                **{rng.choice(['a', 'b']): rng.choice([1.5, 0.1, 3, 'txt', True, self.t])})
 
@@ -331,7 +332,7 @@ class Vocab:
             return cirq.KeyCondition(cirq.MeasurementKey(k), index=rng.choice([-1, -1, 0]))
         if r < 0.7:
             return cirq.BitMaskKeyCondition(k, bitmask=rng.choice([None, 1, 2]), target_value=rng.choice([0, 1, 2]), equal_target=rng.random() < 0.5)
-        return cirq.SympyCondition(rng.choice([sympy.Eq(sympy.Symbol(k), 1), sympy.Symbol(k) > 0, sympy.Symbol(k)]))
+        return cirq.SympyCondition(rng.choice([sympy.Eq(sympy.Symbol(k), 1), sympy.Symbol(k) > 0] + ([sympy.Symbol(k)] if self.known else [])))
 
     def op(self, free, keys, pool, allow_known=True):
         """One operation on qubits taken from `free` (mutated); None when nothing fits."""
@@ -439,6 +440,7 @@ class Vocab:
 
     def circuit(self, allow_known=True):
         cirq, rng = self.cirq, self.rng
+        self.known = allow_known
         qubits = rng.sample(self.qubits, rng.choice([2, 3, 4, 6]))
         keys, pool = [], []
         subs = []
@@ -772,6 +774,353 @@ def circuits_stream(ctx, cirq, cg, n, shard=0):
         ctx.mark_broken('correspondence:constants_table', f'constants table differs from the interning model for {c!r}; table skeleton {sk} top {top}'[:3000])
 
 
+# ------------------------------------------------------------------ sweeps and run contexts
+def f32(x):
+    return float(np.float32(x))
+
+
+def gen_single_sweep(ctx, cirq, cg, key):
+    rng = ctx.rng
+    from cirq_google.study import DeviceParameter
+    md = None
+    if rng.random() < 0.3:
+        md = DeviceParameter(path=rng.choice([['q', 'freq'], ['a'], ['x', 'y', 'z']]), idx=rng.choice([None, None, 0, 3]), units=rng.choice([None, 'GHz', 'ns']))
+    r = rng.random()
+    if r < 0.35:
+        n = rng.choice([2, 3, 5])
+        pts = [rng.choice([round(rng.uniform(-3, 3), rng.choice([1, 4, 12])), rng.randint(-5, 5), 0.1, 1 / 3]) for _ in range(n)]
+        return cirq.Points(key, pts, metadata=md)
+    if r < 0.55:
+        return cirq.Points(key, [rng.choice([0.1, 2, -7, 0.0, 1e-9, None, 'label', 2.5])], metadata=md)
+    if r < 0.85:
+        return cirq.Linspace(key, rng.choice([0, 0.1, -1.5, 0.0]), rng.choice([1, 0.7, 2.5, 0.0]), rng.choice([1, 2, 5]), metadata=md)
+    return cg.study.FiniteRandomVariable(key, distribution={0.1: 0.25, 2.0: 0.5, -1.0: 0.25}, length=rng.choice([1, 4]), seed=rng.randint(0, 9), metadata=md)
+
+
+def gen_sweep(ctx, cirq, cg, keys, depth=0):
+    rng = ctx.rng
+    if depth >= 2 or len(keys) == 1 or rng.random() < 0.3:
+        r = rng.random()
+        if r < 0.08:
+            return cirq.UnitSweep
+        if r < 0.2 and depth == 0:
+            n = rng.choice([1, 2, 3])
+            ks = keys[:rng.choice([1, 2])]
+            if rng.random() < 0.15 and len(keys) >= 2:      # resolvers with different key sets: known finding sweep:listsweep-heterogeneous
+                return cirq.ListSweep([{keys[0]: 1}, {keys[1]: 2}])
+            return cirq.ListSweep([{k: rng.choice([0.5, 1, 0.1, -2]) for k in ks} for _ in range(n)])
+        if r < 0.3:
+            a, b = gen_single_sweep(ctx, cirq, cg, keys[0]), gen_single_sweep(ctx, cirq, cg, keys[0])
+            return cirq.Concat(a, b)
+        return gen_single_sweep(ctx, cirq, cg, keys[0])
+    cut = rng.randint(1, len(keys) - 1)
+    a, b = gen_sweep(ctx, cirq, cg, keys[:cut], depth + 1), gen_sweep(ctx, cirq, cg, keys[cut:], depth + 1)
+    return rng.choice([cirq.Zip, cirq.ZipLongest, cirq.Product, cirq.Product])(a, b)
+
+
+def sweep_desc(cirq, s, float64):
+    """Specification-level description of a sweep: structure, keys, values (float32 unless float64), metadata."""
+    r = (lambda x: x) if float64 else (lambda x: f32(x) if isinstance(x, (int, float)) and not isinstance(x, bool) else x)
+    if s is cirq.UnitSweep:
+        return ('unit',)
+    if isinstance(s, cirq.ListSweep):
+        return ('list', [sorted((str(k), r(v)) for k, v in pr.param_dict.items()) for pr in s])
+    if isinstance(s, cirq.Product):
+        return ('product', [sweep_desc(cirq, f, float64) for f in s.factors])
+    if isinstance(s, cirq.ZipLongest):
+        return ('ziplongest', [sweep_desc(cirq, f, float64) for f in s.sweeps])
+    if isinstance(s, cirq.Zip):
+        return ('zip', [sweep_desc(cirq, f, float64) for f in s.sweeps])
+    if isinstance(s, cirq.Concat):
+        return ('concat', [sweep_desc(cirq, f, float64) for f in s.sweeps])
+    md = getattr(s, 'metadata', None)
+    mdd = None if md is None else (list(md.path), md.idx, md.units)
+    if isinstance(s, cirq.Linspace):
+        return ('linspace', s.key, float(r(s.start)), float(r(s.stop)), s.length, mdd)
+    if isinstance(s, cirq.Points):
+        pts = list(s.points)
+        if len(pts) == 1 and isinstance(pts[0], int):
+            return ('points', s.key, pts, mdd)         # a single int is kept exact (const int_value)
+        return ('points', s.key, [float(r(x)) if isinstance(x, (int, float)) else x for x in pts], mdd)
+    return ('frv', s.key, sorted((float(k), f32(v) if False else float(v)) for k, v in s.distribution.items()), s.length, s.seed, mdd)
+
+
+def round_sweep(cirq, s, float64):
+    """The sweep the receiver is entitled to: the same structure with the stored numbers rounded to float32."""
+    if float64 or s is cirq.UnitSweep:
+        return s
+    r = lambda x: f32(x) if isinstance(x, (int, float)) and not isinstance(x, bool) else x
+    if isinstance(s, cirq.ListSweep):
+        return cirq.ListSweep([{k: r(v) for k, v in pr.param_dict.items()} for pr in s])
+    if isinstance(s, cirq.Product):
+        return cirq.Product(*[round_sweep(cirq, f, float64) for f in s.factors])
+    if isinstance(s, cirq.ZipLongest):
+        return cirq.ZipLongest(*[round_sweep(cirq, f, float64) for f in s.sweeps])
+    if isinstance(s, cirq.Zip):
+        return cirq.Zip(*[round_sweep(cirq, f, float64) for f in s.sweeps])
+    if isinstance(s, cirq.Concat):
+        return cirq.Concat(*[round_sweep(cirq, f, float64) for f in s.sweeps])
+    if isinstance(s, cirq.Linspace):
+        return cirq.Linspace(s.key, r(s.start), r(s.stop), s.length, metadata=s.metadata)
+    if isinstance(s, cirq.Points):
+        pts = list(s.points)
+        return s if len(pts) == 1 and isinstance(pts[0], int) else cirq.Points(s.key, [r(x) for x in pts], metadata=s.metadata)
+    return s
+
+
+def sweep_values(sw):
+    return [sorted((str(k), float(v) if isinstance(v, (int, float)) and not isinstance(v, bool) else v) for k, v in t) for t in sw.param_tuples()]
+
+
+def sweeps_stream(ctx, cirq, cg, v2, n):
+    import gzip
+    from cirq_google.api.v2 import run_context_pb2
+    rng = ctx.rng
+    for case in range(n):
+        keys = rng.sample(['a', 'b', 'c', 'theta'], rng.choice([1, 2, 3]))
+        s = gen_sweep(ctx, cirq, cg, keys)
+        f64 = rng.random() < 0.3
+        rp = dict(kind='sweep', repr=repr(s), float64=f64)
+        try:
+            d = v2.sweep_from_proto(v2.sweep_to_proto(s, use_float64=f64))
+        except Exception as e:
+            ctx.violation('sweep:raises:' + type(e).__name__, f'sweep round trip raised {type(e).__name__}: {e} on {s!r}', rp)
+            continue
+        exp, got = sweep_desc(cirq, s, f64), sweep_desc(cirq, d, True)
+        nontriv = not isinstance(s, (cirq.Points, cirq.Linspace)) and s is not cirq.UnitSweep and len(s) > 1
+        ctx.count('sweep:roundtrip', [repr(s), f64], nontriv, sample=dict(sweep=repr(s), float64=f64, back=repr(d)))
+        if isinstance(s, cirq.ListSweep):
+            # a ListSweep travels as a Zip of Points: the parameter assignments are what must survive
+            r = (lambda x: x) if f64 else f32
+            e_res = [sorted((str(k), r(v)) for k, v in pr.param_dict.items()) for pr in s]
+            g_res = [sorted((str(k), float(v)) for k, v in pr.param_dict.items()) for pr in d]
+            if e_res != g_res:
+                hetero = len({tuple(sorted(map(str, pr.param_dict))) for pr in s}) > 1
+                ctx.violation('sweep:listsweep-heterogeneous' if hetero else 'sweep:listsweep', f'{s!r} comes back as {d!r} with assignments {g_res}, expected {e_res}', rp)
+            continue
+        if exp != got:
+            sig = 'sweep:roundtrip'
+            if 'idx=0' in repr(s) and str(exp).replace("'], 0, ", "'], None, ") == str(got):
+                sig = 'sweep:device-parameter-idx-zero'
+            ctx.violation(sig, f'sweep_from_proto(sweep_to_proto(s, use_float64={f64})) = {d!r} ({got}); expected {exp} for s = {s!r}', rp)
+        else:
+            e_vals, g_vals = sweep_values(round_sweep(cirq, s, f64)), sweep_values(d)
+            if e_vals != g_vals:
+                sig = 'sweep:finite-random-variable-order' if 'FiniteRandomVariable' in repr(s) else 'sweep:values'
+                ctx.violation(sig, f'the decoded sweep is equal in structure but yields other parameter values: {g_vals} instead of {e_vals} for {s!r} -> {d!r}', rp)
+        # ---- run context: sweepable + repetitions
+        if rng.random() < 0.5:
+            kind = rng.choice(['none', 'dict', 'dicts', 'sweep', 'sweeps', 'resolver'])
+            sweepable = {'none': None, 'dict': {'a': 0.5, 'b': 2}, 'dicts': [{'a': 0.5}, {'a': 0.25, 'b': 1}], 'sweep': s,
+                         'sweeps': [s, gen_sweep(ctx, cirq, cg, keys)], 'resolver': cirq.ParamResolver({'a': 0.1})}[kind]
+            nsw = len(cirq.to_sweeps(sweepable))
+            reps = rng.choice([rng.randint(1, 1000), [rng.randint(1, 50) for _ in range(nsw)], [5, 6, 7] if nsw == 1 else [1] * (nsw + 1)])
+            compress = rng.random() < 0.3
+            try:
+                rc = v2.run_context_to_proto(sweepable, reps, compress_proto=compress, use_float64=f64)
+                if compress:
+                    rc = run_context_pb2.RunContext.FromString(gzip.decompress(rc.compressed_run_context))
+                got_reps = [ps.repetitions for ps in rc.parameter_sweeps]
+                got_sw = [v2.sweep_from_proto(ps.sweep) for ps in rc.parameter_sweeps]
+            except ValueError:
+                got_reps = got_sw = None
+            sl = cirq.to_sweeps(sweepable)
+            if isinstance(reps, list):
+                if len(sl) == 1 and len(reps) > 1:
+                    sl = sl * len(reps)
+                exp_reps = reps if len(sl) == len(reps) else None
+            else:
+                exp_reps = [reps] * len(sl)
+            ok = (got_reps is None) == (exp_reps is None) and (got_reps is None or (
+                got_reps == exp_reps and [sweep_values(g) for g in got_sw] == [sweep_values(round_sweep(cirq, e, f64)) for e in sl]))
+            ctx.count('run_context', [kind, repr(sweepable), repr(reps), compress, f64], isinstance(reps, list) and len(reps) > 1,
+                      sample=dict(sweepable=repr(sweepable)[:300], repetitions=reps, compressed=compress, decoded_repetitions=got_reps))
+            hetero = any(isinstance(x, cirq.ListSweep) and len({tuple(sorted(map(str, pr.param_dict))) for pr in x}) > 1 for x in sl)
+            if not ok:
+                frv = got_reps == exp_reps and 'FiniteRandomVariable' in repr(sweepable) and got_sw is not None and \
+                    [sweep_desc(cirq, g, True) for g in got_sw if not isinstance(g, cirq.ListSweep)] == [sweep_desc(cirq, e, f64) for e in sl if not isinstance(e, cirq.ListSweep)]
+                ctx.violation('sweep:listsweep-heterogeneous' if hetero else ('sweep:finite-random-variable-order' if frv else 'run_context:roundtrip'),
+                              f'run_context_to_proto({sweepable!r}, {reps}) decodes to repetitions {got_reps} and sweeps {got_sw!r}', dict(rp, sweepable=repr(sweepable), repetitions=reps))
+
+
+# ------------------------------------------------------------------ multi-program and circuit-function forms
+def multi_stream(ctx, cirq, cg, n):
+    S = cg.CIRCUIT_SERIALIZER
+    norm, _, _ = make_norm(cirq, cg)
+    V = Vocab(ctx, cirq, cg)
+    rng = ctx.rng
+    import sympy
+    for case in range(n):
+        cs = [V.circuit(allow_known=False) for _ in range(rng.choice([1, 2, 3]))]
+        if len(cs) > 1 and rng.random() < 0.5:
+            cs.append(cs[0])                       # the same circuit twice: everything is shared
+        form = rng.choice(['list', 'dict', 'function'])
+        try:
+            if form == 'list':
+                msg = S.serialize_multi_program(cs)
+                exp = [('', {}, c) for c in cs]
+            elif form == 'dict':
+                keys = [f'k{i}' for i in range(len(cs))]
+                msg = S.serialize_multi_program(dict(zip(keys, cs)))
+                exp = [(k, {}, c) for k, c in zip(keys, cs)]
+            else:
+                sweep = cirq.Product(cirq.Points('idx', list(range(len(cs)))), cirq.Points('w', [0.1, 0.5]))
+                msg = S.serialize_circuit_function(lambda idx, w: cs[int(idx)], sweep)
+                exp = [('', dict(t), cs[int(dict(t)['idx'])]) for t in sweep.param_tuples()]
+            got = S.deserialize_multi_program(msg)
+        except Exception as e:
+            ctx.violation('multi:raises:' + type(e).__name__, f'{form} form raised {type(e).__name__}: {str(e)[:300]}', dict(kind='multi', form=form, literals=[circuit_literal(c) for c in cs]))
+            continue
+        ok = len(got) == len(exp)
+        for (k, a, c), (gk, ga, gc) in zip(exp, got):
+            ok = ok and k == gk and {kk: f32(v) for kk, v in a.items()} == {kk: float(v) for kk, v in dict(ga).items()}
+            x, y = norm(c), norm(gc)
+            ok = ok and len(x.moments) == len(y.moments) and all(m1 == m2 and tuple(m1.tags) == tuple(m2.tags) for m1, m2 in zip(x.moments, y.moments)) and tuple(x.tags) == tuple(y.tags)
+        tot = sum(len(S.serialize(c).constants) for c in cs)
+        ctx.count('multi_program', [form, [circuit_literal(c) for c in cs]], len(cs) > 1 and len(msg.constants) < tot,
+                  sample=dict(form=form, circuits=len(exp), constants=len(msg.constants), constants_if_separate=tot))
+        if not ok:
+            # moment tags shared across programs are the known finding; anything else is new
+            shared_tags = False
+            allm = [m for c in cs for m in c.moments]
+            for i_, m1 in enumerate(allm):
+                shared_tags = shared_tags or any(m1 == m2 and tuple(m1.tags) != tuple(m2.tags) for m2 in allm[i_ + 1:])
+            ctx.violation('circuit:moment-tags-shared' if shared_tags else 'multi:roundtrip', f'{form} form: deserialize_multi_program(serialize(...)) differs from the circuits',
+                          dict(kind='multi', form=form, literals=[circuit_literal(c) for c in cs]))
+
+
+# ------------------------------------------------------------------ device specifications
+GATE_NAMES = ['syc', 'sqrt_iswap', 'sqrt_iswap_inv', 'cz', 'cz_pow_gate', 'phased_xz', 'virtual_zpow', 'physical_zpow', 'meas', 'wait',
+              'fsim_via_model', 'two_pulse_fsim', 'internal_gate', 'reset']
+
+
+def spec_accepts(cirq, cg, proto, op):
+    """Accept/reject decision read off the DeviceSpecification alone (written from the documentation of the fields)."""
+    from cirq_google.api import v2
+    names = {g.WhichOneof('gate') for g in proto.valid_gates}
+    gate, tags = op.gate, set(type(t).__name__ for t in op.tags)
+
+    def same(target):
+        try:
+            return cirq.equal_up_to_global_phase(cirq.unitary(gate), cirq.unitary(target), atol=1e-8)
+        except Exception:
+            return False
+    ok = False
+    for nme in names:
+        if nme == 'syc':
+            ok |= cirq.num_qubits(gate) == 2 and same(cg.SYC)
+        elif nme == 'sqrt_iswap':
+            ok |= cirq.num_qubits(gate) == 2 and same(cirq.SQRT_ISWAP)
+        elif nme == 'sqrt_iswap_inv':
+            ok |= cirq.num_qubits(gate) == 2 and same(cirq.SQRT_ISWAP_INV)
+        elif nme == 'cz':
+            ok |= cirq.num_qubits(gate) == 2 and same(cirq.CZ)
+        elif nme == 'cz_pow_gate':
+            ok |= isinstance(gate, cirq.CZPowGate)
+        elif nme == 'phased_xz':
+            ok |= isinstance(gate, (cirq.IdentityGate, cirq.PhasedXZGate, cirq.XPowGate, cirq.YPowGate, cirq.HPowGate, cirq.PhasedXPowGate, cirq.SingleQubitCliffordGate))
+        elif nme == 'virtual_zpow':
+            ok |= isinstance(gate, cirq.ZPowGate) and 'PhysicalZTag' not in tags
+        elif nme == 'physical_zpow':
+            ok |= isinstance(gate, cirq.ZPowGate) and 'PhysicalZTag' in tags
+        elif nme == 'meas':
+            ok |= isinstance(gate, cirq.MeasurementGate)
+        elif nme == 'wait':
+            ok |= isinstance(gate, cirq.WaitGate)
+        elif nme == 'fsim_via_model':
+            ok |= isinstance(gate, cirq.FSimGate) and 'FSimViaModelTag' in tags
+        elif nme == 'two_pulse_fsim':
+            ok |= isinstance(gate, cirq.FSimGate) and 'TwoPulseFSimTag' in tags
+        elif nme == 'internal_gate':
+            ok |= isinstance(gate, cg.InternalGate)
+        elif nme == 'reset':
+            ok |= isinstance(gate, cirq.ResetChannel)
+    if not ok:
+        return False
+    ids = [v2.qubit_to_proto_id(q) for q in op.qubits]
+    if any(i not in proto.valid_qubits for i in ids):
+        return False
+    if len(ids) == 2 and not isinstance(gate, (cirq.MeasurementGate, cirq.WaitGate)):
+        pairs = {frozenset(t.ids) for ts in proto.valid_targets if ts.target_ordering == v2.device_pb2.TargetSet.SYMMETRIC for t in ts.targets if len(t.ids) == 2}
+        return frozenset(ids) in pairs
+    return True
+
+
+def devices_stream(ctx, cirq, cg, n):
+    from cirq_google.devices import grid_device as gd
+    from cirq_google.ops import PhysicalZTag, FSimViaModelTag, TwoPulseFSimTag
+    rng = ctx.rng
+    grid = [cirq.GridQubit(r, c) for r in range(3) for c in range(3)]
+    fam = {gr.gate_spec_name: gr.supported_gates for gr in gd._GATES}
+    test_gates1 = [cirq.X, cirq.Y ** 0.3, cirq.Z ** 0.2, cirq.H, cirq.PhasedXZGate(x_exponent=0.1, z_exponent=0.2, axis_phase_exponent=0.3), cirq.I,
+                   cirq.rx(0.3), cirq.ResetChannel(), cirq.WaitGate(cirq.Duration(nanos=5)), cg.InternalGate('g', 'm', 1), cirq.S, cirq.T]
+    test_gates2 = [cirq.CZ, cirq.CZ ** 0.5, cirq.CZ ** -1, cg.SYC, cirq.SQRT_ISWAP, cirq.SQRT_ISWAP_INV, cirq.ISWAP, cirq.FSimGate(np.pi / 2, np.pi / 6),
+                   cirq.FSimGate(0.3, 0.4), cirq.CNOT, cirq.SWAP, cirq.ISWAP ** 0.5, cirq.WaitGate(cirq.Duration(nanos=5), num_qubits=2)]
+    for case in range(n):
+        qs = rng.sample(grid, rng.choice([2, 4, 6, 9]))
+        adj = [(a, b) for a in qs for b in qs if a < b and a.is_adjacent(b)]
+        pairs = rng.sample(adj, rng.randint(0, len(adj))) if adj else []
+        names = rng.sample(GATE_NAMES, rng.randint(1, 8))
+        gateset = cirq.Gateset(*[rng.choice(fam[nm]) for nm in names])
+        dmode = rng.choice(['none', 'empty', 'some', 'some'])
+        durs = None if dmode == 'none' else ({} if dmode == 'empty' else {g: cirq.Duration(picos=rng.choice([0, 1000, 25000, 12])) for g in rng.sample(sorted(gateset.gates, key=repr), rng.randint(1, len(gateset.gates)))})
+        rp = dict(kind='device', qubits=[(q.row, q.col) for q in qs], pairs=[[(a.row, a.col), (b.row, b.col)] for a, b in pairs], gates=names, durations=dmode)
+        try:
+            dev = cg.GridDevice._from_device_information(qubit_pairs=pairs, gateset=gateset, gate_durations=durs, all_qubits=qs)
+        except ValueError:
+            continue                       # inconsistent durations for one gate representation: not a device
+        proto = dev.to_proto()
+        if rng.random() < 0.4:             # qubit attributes only exist on devices read from a specification
+            for q in rng.sample(qs, rng.randint(1, len(qs))):
+                a = proto.qubit_attributes[f'{q.row}_{q.col}']
+                for nm_, val in rng.sample([('freq', 5.1), ('idx', 3), ('ok', True), ('label', 'x'), ('none', None)], rng.randint(1, 3)):
+                    gd._qubit_attribute_value_to_proto(a.attributes[nm_], val)
+            dev = cg.GridDevice.from_proto(proto)
+            proto = dev.to_proto()
+        dev2 = cg.GridDevice.from_proto(proto)
+        same_parts = (dev2.metadata.qubit_set == dev.metadata.qubit_set and dev2.metadata.qubit_pairs == dev.metadata.qubit_pairs
+                      and dev2.metadata.gateset == dev.metadata.gateset and dict(dev2.qubit_attributes) == dict(dev.qubit_attributes)
+                      and dev2.to_proto() == proto)
+        durs_equal = dev2.metadata.gate_durations == dev.metadata.gate_durations
+        ctx.count('device:roundtrip', rp, len(pairs) >= 1 and len(names) >= 2, sample=dict(rp, valid_gates=[g.WhichOneof('gate') for g in proto.valid_gates]))
+        if not same_parts:
+            ctx.violation('device:roundtrip', f'GridDevice.from_proto(d.to_proto()) differs from d in qubits/pairs/gateset/attributes for {rp}', rp)
+        elif not durs_equal or dev2 != dev:
+            if dev.metadata.gate_durations is None and all(v == cirq.Duration() for v in dev2.metadata.gate_durations.values()):
+                ctx.violation('device:absent-durations-become-zero', f'a device without gate durations comes back with zero durations for every gate, so from_proto(d.to_proto()) != d: {rp}', rp)
+            else:
+                ctx.violation('device:durations', f'gate durations change in the round trip: {dev.metadata.gate_durations} -> {dev2.metadata.gate_durations}', rp)
+        # equal accept / reject decisions, and equal to what the specification says
+        for _ in range(12):
+            if rng.random() < 0.5:
+                g = rng.choice(test_gates1)
+                q = rng.choice(grid)
+                op = g.on(q)
+                if isinstance(g, cirq.ZPowGate) and rng.random() < 0.5:
+                    op = op.with_tags(PhysicalZTag())
+            elif rng.random() < 0.2:
+                op = cirq.measure(*rng.sample(grid, rng.choice([1, 2, 3])), key='m')
+            else:
+                g = rng.choice(test_gates2)
+                a = rng.choice(grid)
+                b = rng.choice([x for x in grid if x != a and (rng.random() < 0.3 or x.is_adjacent(a))])
+                op = g.on(a, b)
+                if isinstance(g, cirq.FSimGate) and rng.random() < 0.5:
+                    op = op.with_tags(rng.choice([FSimViaModelTag(), TwoPulseFSimTag()]))
+            dec = []
+            for d_ in (dev, dev2):
+                try:
+                    d_.validate_operation(op)
+                    dec.append(True)
+                except ValueError:
+                    dec.append(False)
+            want = spec_accepts(cirq, cg, proto, op)
+            ctx.count('device:validate', [rp, repr(op)], dec[0], sample=dict(gates=names, op=repr(op), accepted=dec[0]))
+            if dec[0] != dec[1] or dec[0] != want:
+                ctx.violation('device:validate', f'operation {op!r}: device says {dec[0]}, device read back from its specification says {dec[1]}, the specification says {want}; {rp}',
+                              dict(rp, op=repr(op)))
+
+
 def run(ctx):
     mods = env.import_cirq(('cirq_google',))
     cirq, cg = mods['cirq'], mods['cirq_google']
@@ -800,6 +1149,9 @@ def streams(ctx, cirq, cg, v2, q):
     nc = 150 if q else 1500
     for shard in range(0, nc, 150):
         circuits_stream(ctx, cirq, cg, min(150, nc - shard), shard)
+    multi_stream(ctx, cirq, cg, 25 if q else 250)
+    sweeps_stream(ctx, cirq, cg, v2, 250 if q else 2500)
+    devices_stream(ctx, cirq, cg, 60 if q else 600)
 
 
 def replay(ctx, data):
@@ -818,5 +1170,69 @@ def replay(ctx, data):
         exp = [bool((int.from_bytes(raw, 'little') >> i) & 1) for i in range(min(data['repetitions'], 8 * len(raw)))]
         print('got', got, 'expected', exp)
         return got == exp
+    cirq, cg = mods['cirq'], mods['cirq_google']
+    import sympy
+    import cirq_google.ops as cgops
+    from cirq_google.ops.calibration_tag import CalibrationTag
+    ns = dict(cirq=cirq, cirq_google=cg, sympy=sympy, np=np, numpy=np, CalibrationTag=CalibrationTag)
+    ns.update({n_: getattr(cgops, n_) for n_ in dir(cgops) if not n_.startswith('_')})
+    if k == 'circuit':
+        c = eval(data['literal'], ns)
+        norm, _, _ = make_norm(cirq, cg)
+        try:
+            ok, d = roundtrip_ok(cirq, cg.CIRCUIT_SERIALIZER, norm, c)
+        except Exception as e:
+            print('raised', type(e).__name__, e)
+            return False
+        print('in :', circuit_literal(c))
+        print('out:', circuit_literal(d))
+        return ok
+    if k == 'multi':
+        cs = [eval(l, ns) for l in data['literals']]
+        norm, _, _ = make_norm(cirq, cg)
+        S = cg.CIRCUIT_SERIALIZER
+        got = S.deserialize_multi_program(S.serialize_multi_program(cs))
+        return len(got) == len(cs) and all(
+            len(norm(c).moments) == len(norm(g[2]).moments) and all(m1 == m2 and tuple(m1.tags) == tuple(m2.tags) for m1, m2 in zip(norm(c).moments, norm(g[2]).moments))
+            for c, g in zip(cs, got))
+    if k == 'sweep':
+        s_ = eval(data['repr'], ns)
+        f64 = data.get('float64', False)
+        d = v2.sweep_from_proto(v2.sweep_to_proto(s_, use_float64=f64))
+        print('in :', repr(s_))
+        print('out:', repr(d))
+        if isinstance(s_, cirq.ListSweep):
+            return sweep_values(round_sweep(cirq, s_, f64)) == sweep_values(d)
+        return sweep_desc(cirq, s_, f64) == sweep_desc(cirq, d, True) and sweep_values(round_sweep(cirq, s_, f64)) == sweep_values(d)
+    if k == 'results':
+        ms = [v2.MeasureInfo(key=m['key'], qubits=[cirq.GridQubit(*q) for q in m['qubits']], instances=m['instances'], invert_mask=[False] * len(m['qubits']), tags=[])
+              for m in data['measurements']]
+        sweeps = [[cirq.ResultDict(params=cirq.ParamResolver(t['params']), records={kk: np.array(a, dtype=bool).reshape(t['shapes'][kk]) for kk, a in t['records'].items()})
+                   for t in sw] for sw in data['sweeps']]
+        back = v2.results_from_proto(v2.results_to_proto(sweeps, ms), ms)
+        return all(np.array_equal(b.records[m.key], t.records[m.key]) for sw, bsw in zip(sweeps, back) for t, b in zip(sw, bsw) for m in ms)
+    if k == 'device':
+        from cirq_google.devices import grid_device as gd
+        fam = {gr.gate_spec_name: gr.supported_gates for gr in gd._GATES}
+        qs = [cirq.GridQubit(*q) for q in data['qubits']]
+        pairs = [(cirq.GridQubit(*a), cirq.GridQubit(*b)) for a, b in data['pairs']]
+        dev = cg.GridDevice._from_device_information(qubit_pairs=pairs, gateset=cirq.Gateset(*[fam[n_][0] for n_ in data['gates']]),
+                                                     gate_durations=None if data['durations'] == 'none' else {}, all_qubits=qs)
+        dev2 = cg.GridDevice.from_proto(dev.to_proto())
+        print('equal:', dev2 == dev)
+        ok = dev2 == dev
+        if 'op' in data:
+            op = eval(data['op'], ns)
+            dec = []
+            for d_ in (dev, dev2):
+                try:
+                    d_.validate_operation(op)
+                    dec.append(True)
+                except ValueError:
+                    dec.append(False)
+            want = spec_accepts(cirq, cg, dev.to_proto(), op)
+            print('decisions', dec, 'specification', want)
+            ok = ok and dec[0] == dec[1] == want
+        return ok
     print('nothing to replay for kind', k)
     return False
